@@ -13,8 +13,8 @@ Lemma send_sd_nonempty e es d w :
   send_sd (e :: es) d w =
   let '((flag, sid), s') := assign_outgoing (sess w) d in
   match sd_datagram (e :: es) flag sid with
-  | Ok b => emit (ESent d b) (set_sess s' w)
-  | Err x => emit (ERaised (err_code x)) (set_sess s' w)
+  | Ok b => emit (ESent d b) (set_sess s' (ghost (GSend (e :: es) d flag sid) w))
+  | Err x => emit (ERaised (err_code x)) (set_sess s' (ghost (GSend (e :: es) d flag sid) w))
   end.
 Proof. reflexivity. Qed.
 
